@@ -871,5 +871,35 @@ func singleStoreCell(a *ssa.Alloc) bool {
 		return false
 	}
 	scan(a.Parent(), a)
-	return ok && stores == 1
+	if !ok || stores != 1 {
+		return false
+	}
+	// the one store must be the variable's initialisation: by the allocating function itself, in the block of the
+	// allocation, before anything reads the cell or captures it (`x := e`); a `var x T` that a closure assigns later
+	// is zero until then and is NOT a constant
+	blk := a.Block()
+	seen := false
+	for _, ins := range blk.Instrs {
+		if ins == ssa.Instruction(a) {
+			seen = true
+			continue
+		}
+		if !seen {
+			continue
+		}
+		switch r := ins.(type) {
+		case *ssa.Store:
+			if r.Addr == ssa.Value(a) {
+				return true
+			}
+		case *ssa.DebugRef:
+		default:
+			for _, op := range ins.Operands(nil) {
+				if op != nil && *op == ssa.Value(a) {
+					return false // used before it is initialised
+				}
+			}
+		}
+	}
+	return false
 }
